@@ -81,18 +81,23 @@ _GRAPH_TRUST = ['assumed contract of the built-in list (append/remove/in/index/c
                 'graph lemma axioms D1-D5, G1 (transcriptions of lemmas/Graph.lean, proved in Lean 4 + Mathlib; transcription trusted, validated on all relations over <= 4 nodes)',
                 'history induction (meta-argument): every public mutator preserves Inv on both exits, constructors establish it; closed by the encapsulation scan']
 _GRAPH_B = ['Task.children.setter, WBS.roots.setter, _ChildrenList.remove (a call of the children setter), WBS.remove/__remove/remove_all, _TaskList.remove_all, Task.__init__, WBS.__init__, the operators //, <<, >> - bounded stand-in only (random histories of public calls)',
-            'closure helpers assumed by contract: Task.all_children = strict descendants, all_parents = strict ancestors below the hidden root, all_predecessors/all_successors = transitive closure, _has_id_intersection, '
-            '_check_no_links_to_ancestors - their bodies are covered by the bounded stand-in only (Task._attach, Task._detach and Task.__set_children are proved in their own units)']
+            'assumed by contract: _has_id_intersection (opaque id-clash predicate of the pre-state; its meaning is checked by the bounded stand-in, C05), _to_list (type dispatch of the setters\' argument), '
+            'the read-only list view _ImmutableTaskList (delegates in / iteration / len to the wrapped list). The closure helpers are no longer assumed: Task.all_children / __get_all_children / its generator, '
+            'all_parents, all_predecessors / all_successors with _unique_tasks, _check_no_links_to_ancestors, the getters parent / id / wbs and Task._attach / _detach / __set_children are proved in their own units; '
+            'their pre-conditions are obliged at every call site in the mutator units']
 _GRAPH_EXPL = ('contract-based deductive verification of the core mutators: Task.parent.setter (incl. its re-entrant call through roots.append, checked against its own contract) and both dependency setters are symbolically '
                'executed from the real source; the shared invariant Inv (forest F1-F4, list objects distinct, ownership W1/W1r/WR, links symmetric M1, acyclic M2 via the Lean-proved lemma G1, no link along the hierarchy X1) is '
                'proved on the normal AND the exceptional exit for an arbitrary heap satisfying Inv - i.e. for every history - together with `rejected => heap unchanged` (C15), `rejected only for a stated reason / accepted only without one`, '
                'and the exact effect with frame (C16). The list facades are proved against those contracts (callers see only the callee contract): _ChildrenList.append / insert / move / sort / reorder and _PredecessorsList / _SuccessorsList append / remove, '
-               'as are the ownership walks Task._attach / _detach and the list-object setter __set_children. Level `other`: the children setter (and _ChildrenList.remove, which calls it), WBS-level operations, the constructors and the closure helpers are assumed by contract and covered by the bounded native '
+               'as are the ownership walks Task._attach / _detach, the list-object setter __set_children and the closure helpers the mutators call (recursive generators executed with a ghost output list; '
+               'all_children is proved to return exactly the depth-first listing dfs(t) = concat over the children c in list order of [c] + dfs(c), every strict descendant once - which is WBS.tasks (C05); '
+               'termination by measures whose existence in finite acyclic graphs is Lean lemma K1). Level `other`: the children setter (and _ChildrenList.remove, which calls it), WBS-level operations and the constructors are covered by the bounded native '
                'stand-in (random histories over task objects sharing ids, two WBSs, stale list facades, constructors). ')
 PROPS.update({
     'C01': P('other', _GRAPH_EXPL, _GRAPH_B, _GRAPH_TRUST, design_ref='8/C01'),
-    'C05': P('other', _GRAPH_EXPL + 'C05: the id-clash test is an assumed contract (_has_id_intersection as a function of the pre-state); uniqueness itself, lookup by id and the depth-first listing are decided by the bounded stand-in.',
-             _GRAPH_B + ['WBS.tasks (depth-first listing)'], _GRAPH_TRUST + ['WBS.__getitem__ is proved to return a member with the id / raise exactly when there is none, given the listing of all_children'], design_ref='8/C05'),
+    'C05': P('other', _GRAPH_EXPL + 'C05: WBS.tasks is proved to be the depth-first listing of the tasks below the hidden root, each member once (WBS.tasks -> Task.all_children -> the recursive generator, each unit against the callee contract); '
+             'WBS.__getitem__ returns a member with the id / raises exactly when there is none. The id-clash test is an assumed contract (_has_id_intersection as a function of the pre-state): uniqueness itself (U1) is decided by the bounded stand-in.',
+             _GRAPH_B, _GRAPH_TRUST + ['WBS.__getitem__ is proved to return a member with the id / raise exactly when there is none, given the listing of all_children'], design_ref='8/C05'),
     'C11': P('other', _GRAPH_EXPL + 'C11: W1 (owner constant along the hierarchy), W1r (a task reports WBS X only if it is reachable from X\'s hidden root) and WR proved for re-parenting incl. subtree adoption; release paths (remove, assignments) bounded.',
              _GRAPH_B, _GRAPH_TRUST, design_ref='8/C11'),
     'C15': P('other', _GRAPH_EXPL, _GRAPH_B, _GRAPH_TRUST, ['constructor atomicity is a known finding (A-12)'], design_ref='8/C15'),
